@@ -155,7 +155,7 @@ def leaf_parameters(factor, rng, seedk, dim, want_zero=False, want_pd=True, want
     if want_empty and "@" not in factor:
         # a distribution that lies entirely outside the parameter's limits: this component's mesh is empty
         cand = [p for p in i.parameters.kernel_parameters if p.type == "volume" and p.length == 1 and p.limits[0] == 0
-                and p.name in sas.active_names(i, pars)]
+                and p.polydisperse and not p.is_control and p.name in sas.active_names(i, pars)]
         if cand:
             p = cand[int(rng.integers(len(cand)))]
             pars[p.name] = -abs(pars[p.name]) - 1.0
